@@ -164,7 +164,7 @@ def _tables(seed):
     x32 = np.asarray(grid, dtype=np.float32)
     zero = exact.ord32(0.0)
     for alpha in (0.1, 0.4, 0.6, 1.0):
-        for p in (1.0, 0.25):
+        for p in (1.0, 0.25, 4.0):  # minimum priorities below, at and above 1 (above 1 with alpha < 1 the threshold matters)
             y = np.asarray(rb.lap_priority(x32, p, alpha), dtype=np.float32)
             tabs.append({"kind": "prio", "fn": "lap", "exact": False, "xo": [exact.ord32(v) for v in x32], "yo": [exact.ord32(v) for v in y], "zero": zero})
         for eps in (1e-6, 0.25):
@@ -172,7 +172,7 @@ def _tables(seed):
             tabs.append({"kind": "prio", "fn": "per", "exact": False, "xo": [exact.ord32(v) for v in x32], "yo": [exact.ord32(v) for v in y], "zero": zero})
     dy = [0.0, 0.25, 0.5, 1.0, 1.5, 2.0, 3.0, 8.0]
     xd = np.asarray(dy, dtype=np.float32)
-    for fn, p in (("lap", 1.0), ("lap", 0.5), ("per", 0.25), ("per", 2.0)):
+    for fn, p in (("lap", 1.0), ("lap", 0.5), ("lap", 4.0), ("per", 0.25), ("per", 2.0)):
         y = np.asarray(rb.lap_priority(xd, p, 1.0) if fn == "lap" else rb.per_priority(xd, 1.0, p), dtype=np.float32)
         fr = lambda v: [Fraction(float(v)).numerator, Fraction(float(v)).denominator]
         if any(max(abs(a), b) >= 2**31 for a, b in map(fr, y)):
